@@ -360,9 +360,14 @@ func (p *Path) nativeArg(caller *frame, v Value, t types.Type) (out interface{},
 			}
 		}
 		return p.nativeArg(caller, v.V, v.T)
+	case XF:
+		return v, true
 	case *smt.Term:
 		if !v.IsConst() {
 			return v, true
+		}
+		if v.Sort.K == smt.SInt {
+			return v.Big.String(), false
 		}
 		ki := basicInfo(t)
 		switch {
@@ -455,6 +460,9 @@ func (p *Path) sprintf(caller *frame, format string, args []Value) Str {
 		if t, ok := natives[0].(*smt.Term); ok {
 			it := args[0].(Iface)
 			return Str{tok: &FmtTok{Format: format, Arg: t, Signed: basicInfo(it.T).signed}}
+		}
+		if x, ok := natives[0].(XF); ok {
+			return Str{tok: &FmtTok{Format: format, X: &x}}
 		}
 	}
 	// piecewise formatting
